@@ -82,7 +82,27 @@ func genC14(g *gen, tier string) *Scenario {
 		}
 		sc.Clients = append(sc.Clients, ops)
 	}
+	if g.pct(10) {
+		// the process restarts (SaveCache, Close, new cache, LoadCache) while the secondary store
+		// lives on: what was restored must still be written back when it is evicted
+		sc.Family += ",restart"
+		var ops []Op
+		for n := g.rng(1, 2); n > 0; n-- {
+			ops = append(ops, Op{Kind: "sleep", Dur: int64(g.rng(0, 4000)) * ms}, Op{Kind: "restart", Key: 9, Dur: int64(g.rng(0, 500)) * ms, N: pick(g, 0, 64)})
+		}
+		sc.Clients = append(sc.Clients, ops)
+	}
 	return sc
+}
+
+// c14RacesRestart: the call overlapped a restart (it may have run on the old, closed cache).
+func c14RacesRestart(rd *RunData, r Rec) bool {
+	for _, rs := range rd.Restarts {
+		if r.Inv < rs.DoneSeq && (r.Open || r.Ret > rs.BeginSeq) {
+			return true
+		}
+	}
+	return false
 }
 
 // possible-contents state for the register model: failed operations make the
@@ -235,6 +255,17 @@ func checkC14x(rd *RunData) []Violation {
 				src := source(r, s2.Inv) // promoted from the secondary tier after the newer Set began
 				// why was the newer value not there any more?
 				why := "newer-value-left-otherwise"
+				if c14RacesRestart(rd, s2) {
+					continue // the newer Set overlapped a restart: it may have gone to the old, closed cache
+				}
+				lostAtRestart := false
+				for _, rs := range rd.Restarts {
+					if s2.Ret < rs.DoneSeq && rs.DoneSeq < r.Ret {
+						if _, ok := rd.restoredVal(rs, s2.Val); !ok {
+							lostAtRestart = true
+						}
+					}
+				}
 				for _, l := range rd.Listener {
 					if l.Key == r.Op.Key && l.Val == s2.Val && l.Seq < r.Ret {
 						switch {
@@ -258,6 +289,9 @@ func checkC14x(rd *RunData) []Violation {
 						why = "newer-value-expired"
 					}
 				}
+				if lostAtRestart && (why == "newer-value-left-otherwise" || why == "newer-value-overwritten-by-later-writes") {
+					why = "newer-value-not-restored-at-restart"
+				}
 				src += "," + why
 				vs = append(vs, Violation{"C14/stale-value-served/" + src + "," + fam, fmt.Sprintf("%s by client %d (inv=%d) returned value %d (written by %s, completed at seq %d) although the later %s by client %d (value %d, seq [%d,%d]) had completed before the read began", r.Op, r.Client, r.Inv, r.Val, w.r.Op, w.r.Ret, s2.Op, s2.Client, s2.Val, s2.Inv, s2.Ret)})
 				ruleHit = true
@@ -265,6 +299,20 @@ func checkC14x(rd *RunData) []Violation {
 			}
 		}
 		for _, d := range dels[r.Op.Key] {
+			if c14RacesRestart(rd, d) {
+				continue
+			}
+			resurrected := false
+			for _, rs := range rd.Restarts {
+				// a Delete that completed before the restart began cannot be undone by it; one issued
+				// after the save began may be: the stream still holds the value (a snapshot restore)
+				if d.Inv > rs.BeginSeq && d.Ret < r.Inv && rs.DoneSeq < r.Ret {
+					resurrected = true
+				}
+			}
+			if resurrected {
+				continue
+			}
 			if d.Inv > w.r.Ret && d.Ret < r.Inv {
 				src := source(r, d.Inv)
 				vs = append(vs, Violation{"C14/deleted-value-served/" + src + "," + fam, fmt.Sprintf("%s by client %d (inv=%d) returned value %d (written by %s, completed at seq %d) although %s by client %d (seq [%d,%d]) had completed without error before the read began", r.Op, r.Client, r.Inv, r.Val, w.r.Op, w.r.Ret, d.Op, d.Client, d.Inv, d.Ret)})
@@ -284,8 +332,8 @@ func checkC14x(rd *RunData) []Violation {
 			}
 		}
 	}
-	if ruleHit {
-		return vs
+	if ruleHit || len(rd.Restarts) > 0 {
+		return vs // (a restart is not an operation of the register model)
 	}
 	// linearizability of the hybrid Get history per key (miss: always legal, no state change)
 	kops := map[int][]porcupine.Operation{}
@@ -392,6 +440,7 @@ func genC15(g *gen, tier string) *Scenario {
 	if failing {
 		sc.Family = kind + ",secondary-set-fails"
 		sc.Stubs.SecSetErrPct = pick(g, 30, 50, 100)
+		sc.Stubs.SecDelErrPct = pick(g, 0, 0, 40) // a failed secondary Delete must not leave the entry behind in the policy
 	}
 	sc.Params["failing"] = 0
 	if failing {
@@ -540,7 +589,7 @@ func checkC15x(rd *RunData) []Violation {
 			vs = append(vs, Violation{"C15/unbounded-memory/" + label, fmt.Sprintf("at quiescence %d entries with total cost %d are resident in memory, MaxSize is %d (%d secondary Set calls failed)", len(sn.Resident), sum, rd.Sc.Cache.MaxSize, failed)})
 		}
 		for _, e := range residentErrors(sn) {
-			if strings.HasPrefix(e, "untracked-resident") || strings.HasPrefix(e, "over-capacity") {
+			if strings.HasPrefix(e, "untracked-resident") || strings.HasPrefix(e, "over-capacity") || strings.HasPrefix(e, "ghost") {
 				vs = append(vs, Violation{"C15/unbounded-memory/" + classify(e) + "," + label, "at quiescence: " + e})
 			}
 		}
